@@ -361,7 +361,7 @@ func translateStages() (string, error) {
 	}
 	var b strings.Builder
 	b.WriteString(stagesHeader)
-	b.WriteString("From Coq Require Import List String ZArith.\nRequire Import V.Base.Prelude V.Shape.Access.\nImport ListNotations.\nLocal Open Scope string_scope.\n\n")
+	b.WriteString("From Coq Require Import List String ZArith.\nRequire Import V.Base.Prelude V.Shape.Access.\nImport ListNotations.\nLocal Open Scope string_scope.\nSet Warnings \"-abstract-large-number\".\n\n")
 	fmt.Fprintf(&b, "Definition site_file_mul : nat := %d.\n", o.mul)
 	b.WriteString("Definition stage_files : list (nat * string) := [")
 	for i, f := range o.files {
